@@ -449,3 +449,42 @@ def merge_streams(cases, parts):
         if r['corr_error']:
             out['corr_error'] = (out['corr_error'] or '') + r['corr_error']
     return out
+
+
+def run_scenarios(prop, cases, results, only=None):
+    """Run scenarios/<prop>/*/demo.py against the repository under test (PYTHONPATH = repo, cwd = repo).  Every
+    scenario becomes a case {'kind': 'scenario', 'name': ...} with the observation {'exit': code, 'tail': output};
+    a non-zero exit is an oracle violation with signature scenario-<name> (the replay is the scenario itself)."""
+    import subprocess
+    base = os.path.join(VERIF, 'scenarios', prop)
+    if not os.path.isdir(base):
+        return
+    repo = os.environ.get('VERIF_REPO') or '/repo'
+    names = sorted(n for n in os.listdir(base) if os.path.isfile(os.path.join(base, n, 'demo.py')))
+    if only is not None:
+        names = [n for n in names if n == only]
+        del cases[:]
+    env = dict(os.environ, PYTHONPATH=repo, PYTHONHASHSEED='0')
+    jobs = []
+    for n in names:
+        jobs.append((n, subprocess.Popen([sys.executable, os.path.join(base, n, 'demo.py')], cwd=repo, env=env,
+                                         stdout=subprocess.PIPE, stderr=subprocess.STDOUT, text=True)))
+    for n, p in jobs:
+        try:
+            out, _ = p.communicate(timeout=300)
+            code = p.returncode
+        except subprocess.TimeoutExpired:
+            p.kill()
+            out, code = 'timed out after 300 s', 124
+        idx = len(cases)
+        cases.append({'kind': 'scenario', 'name': n})
+        obs = results.setdefault('observations', [])
+        while len(obs) < idx:
+            obs.append(None)
+        obs.append({'exit': code, 'tail': (out or '')[-1500:]})
+        results.setdefault('stats', {})['scenario/%s' % ('ok' if code == 0 else 'fails')] = \
+            results.get('stats', {}).get('scenario/%s' % ('ok' if code == 0 else 'fails'), 0) + 1
+        if code != 0:
+            results.setdefault('oracle', []).append(
+                (idx, 'scenario %s/%s: %s' % (prop, n, (out or '').strip().splitlines()[-1][:300] if (out or '').strip() else 'exit %d' % code),
+                 'scenario-' + n))
